@@ -57,6 +57,18 @@ def cases(tier):
             add(op, [(1, 3, 4), (3, 1, 4)])
             add(op, [(2, 3, 3), (3, 2, 3)])
             add(op, [(1, 4, 3), (4, 1, 3)])
+    # column-major reshape of vectors into 2-D targets (and back), flatten of 2-D sources
+    for (src, dst) in (((1, 6), (2, 3)), ((6, 1), (3, 2)), ((1, 4), (2, 2)), ((2, 3), (1, 6)), ((2, 3), (3, 2)),
+                       ((1, 6), (3, -1)), ((6, 1), (-1, 3))):
+        for order in 'CF':
+            add('reshape', [(src[0], src[1], 2)], newshape=list(dst), order=order)
+    # powers whose exponent has several set bits (square-and-multiply style implementations)
+    add('pow', [(1, 1, 2)], k=7)
+    add('pow', [(2, 2, 1)], k=7, max_bits=6)
+    add('pow', [(2, 2, 1)], k=5, max_bits=6)
+    if tier != 'quick':
+        add('pow', [(2, 2, 1)], k=11, max_bits=6)
+        add('pow', [(1, 1, 2)], k=13, max_bits=8)
     # in-place operators after the matrix has been observed
     for op in ('add', 'sub', 'mul', 'matmul'):
         add(op, [(2, 2, 2), (2, 2, 2)], inplace=True)
